@@ -188,6 +188,17 @@ def gen_consts(c):
 
 _cache = {}
 
+# which properties depend on which extracted item (regex on the item's description)
+DEPENDS = [
+    (r"BUZHASH|CHAR_OFFSET|REFILL", ["C09", "C10", "C01", "C02", "C03", "C05", "C06", "C12", "C15"]),
+    (r"MAGIC|PRE_HEADER|MAX_LEN|magic", ["C04", "C11", "C15", "C17", "C01", "C02", "C05", "C06", "C14", "C16"]),
+    (r"proto|tag of|generated struct|version", ["C11", "C15", "C17", "C04", "C01", "C12"]),
+    (r"combinators", ["C01", "C12"]),
+    (r"stored-bytes rule|raw rule", ["C01", "C11", "C12", "C17"]),
+    (r"header pin", ["C04", "C14"]),
+    (r"open options|step |temp file|seed open|archive open", ["C14", "C16", "C11", "C05", "C06"]),
+]
+
 
 def run(pid):
     """Regenerate Gen files; returns a summary dict for the evidence file.  Raises core.Failure when
@@ -197,6 +208,13 @@ def run(pid):
     def missing(what):
         problems.append(what)
         return None
+
+    def relevant(what):
+        """Which properties a missing item concerns (everything for items nobody classified)."""
+        for pat, props_ in DEPENDS:
+            if re.search(pat, what):
+                return pid in props_ or pid in ("setup", "restore", "x")
+        return True
 
     c = extract_consts(missing)
     changed = write_if_changed(os.path.join(core.LEAN, "Bita", "Gen", "Consts.lean"), gen_consts(c))
@@ -208,6 +226,7 @@ def run(pid):
                                archive_magic=c["archiveMagic"], legacy_magic=c["legacyMagic"],
                                pre_header_size=c["preHeaderSize"], pkg_version=c["pkgVersion"]),
                    facts=f, regenerated=bool(changed or changed2), not_found=problems)
-    if problems:
-        raise core.Failure("extractor could not locate: " + "; ".join(problems[:6]), "\n".join(problems))
+    mine = [w for w in problems if relevant(w)]
+    if mine:
+        raise core.Failure("extractor could not locate: " + "; ".join(mine[:6]), "\n".join(mine))
     return summary
